@@ -145,8 +145,9 @@ class Config:
     __slots__ = ('type', 'syntax', 'variables', 'snippets', 'options', 'user_config', 'context', 'cache')
 
     def __init__(self, user_config={}, global_config={}):
-        syntax_type = user_config.get('type', 'markup')
-        syntax = user_config.get('syntax', DEFAULT_SYNTAXES.get(syntax_type, 'html'))
+        # NB: `None` is the same as absent key (settings storage of editor may return it)
+        syntax_type = user_config.get('type') or 'markup'
+        syntax = user_config.get('syntax') or DEFAULT_SYNTAXES.get(syntax_type, 'html')
 
         self.type = syntax_type
         self.syntax = syntax
@@ -182,19 +183,19 @@ def is_syntax_of(syntax: str, syntax_type: str):
 def merged_data(syntax_type: str, syntax: str, key: str, user_config: dict, global_config: dict={}):
     empty = {}
     type_defaults = SYNTAX_CONFIG.get(syntax_type, empty)
-    type_override = global_config.get(syntax_type, empty)
+    type_override = global_config.get(syntax_type) or empty
     # NB: name of abbreviation type is not a syntax: its section holds type defaults.
     # Syntax of another type (`xsl` for inline CSS of XSL document) is not a syntax
     # of current type either
     syntax_defaults = SYNTAX_CONFIG.get(syntax, empty) if is_syntax_of(syntax, syntax_type) else empty
-    syntax_override = global_config.get(syntax, empty)
+    syntax_override = global_config.get(syntax) or empty
 
     result = {}
     result.update(DEFAULT_CONFIG.get(key, empty))
     if key in type_defaults: result.update(type_defaults[key])
     if key in syntax_defaults: result.update(syntax_defaults[key])
-    if key in type_override: result.update(type_override[key])
-    if key in syntax_override: result.update(syntax_override[key])
-    result.update(user_config.get(key, empty))
+    result.update(type_override.get(key) or empty)
+    result.update(syntax_override.get(key) or empty)
+    result.update(user_config.get(key) or empty)
 
     return result
